@@ -50,6 +50,8 @@ ASSUMPTIONS = [
     "raise_bad_mode only for supported key counts); describe() of Quaver and StepMania charts always raises "
     "(metadata() signature mismatch) - counted under raised=describe, not reported here",
     "hitsound_copy: both arguments are compared; with role 'both' the same chart is source and target",
+    "BMS charts that are written have at most 2 tempo points (3 after an append history): BMSMap.write multiplies the "
+    "denominators of off-grid tempo points into its line length (3 points: seconds, 4: out of memory)",
 ]
 
 SET_GAMES = ("sm", "o2j")
@@ -78,6 +80,7 @@ GAME_OPS = {
     "o2j": ["O2JToOsu", "O2JToQua", "O2JToSM", "O2JToSM_merge", "O2JToBMS"],
 }
 BMS_CONFIGS = ["BME", "BMS", "PMS", "PMS_BME", "PMS_5B"]
+BMS_WRITE_MAX_TEMPO = 2
 BMS_CONFIG_KEYS = {"BME": 16, "BMS": 14, "PMS": 9, "PMS_BME": 18, "PMS_5B": 5}
 
 
@@ -115,9 +118,10 @@ _R = [0.5, 0.75, 1.0, 1.25, 1.5, 2.0]
 
 
 @st.composite
-def _op_st(draw, game, offs):
+def _op_st(draw, game, offs, writable=True):
     # three equally likely groups, so the (few) game-specific converters / writers / algorithms come up often
-    group = draw(st.sampled_from([LIST_OPS, MAP_OPS, GAME_OPS[game]]))
+    own = [n for n in GAME_OPS[game] if writable or n not in ("write", "write_file")]
+    group = draw(st.sampled_from([LIST_OPS, MAP_OPS, own]))
     name = draw(st.sampled_from(group))
     t_st = st.one_of(
         st.builds(lambda a, d: round(a + d, 3), st.sampled_from(offs), st.sampled_from([0.0, 0.0, 0.0, 1.0, -1.0, 0.5, 1000.0, -1000.0])),
@@ -146,12 +150,20 @@ def case_st(draw, tier):
     else:
         keys = draw(st.sampled_from([5, 8])) if game == "bms" else None
         chart = draw(B.st_chart(game, tier, keys=keys))
+    writable = True
+    if game == "bms" and len(chart["lists"]["bpms"]) > BMS_WRITE_MAX_TEMPO:
+        # BMSMap.write multiplies the denominators of off-grid tempo points into its line length: 3 points take
+        # seconds, 4 exhaust memory. Most BMS charts are cut to 2 points, the others are not written.
+        if draw(st.integers(0, 3)) != 0:
+            chart["lists"]["bpms"] = chart["lists"]["bpms"][:BMS_WRITE_MAX_TEMPO]
+        else:
+            writable = False
     if draw(st.integers(0, 5)) != 0:
         _anchor(chart)
     offs = _offsets_of(chart)
     hist = dict(kind=draw(st.sampled_from(HISTORIES)), mask=draw(st.lists(st.booleans(), min_size=5, max_size=5)))
     n_ops = draw(st.sampled_from([1, 1, 2, 2, 3, 4]))
-    ops = [draw(_op_st(game, offs)) for _ in range(n_ops)]
+    ops = [draw(_op_st(game, offs, writable)) for _ in range(n_ops)]
     case = dict(chart=chart, history=hist, ops=ops)
     if game == "osu" and any(o["op"] == "hitsound_copy" for o in ops):
         other = draw(B.st_chart("osu", tier, keys=chart["keys"]))
@@ -791,6 +803,9 @@ def check(case, ctx):
     for o in ops:
         name = o["op"]
         ctx.harness(name in ops_of(game), f"operation {name} is not defined for {game}")
+        if game == "bms" and name in ("write", "write_file") and len(obj.bpms) > BMS_WRITE_MAX_TEMPO + 1:
+            ctx.label("skipped=bms-write-with-many-tempo-points")  # the writer's memory use explodes (see case_st)
+            continue
         results, raised = _run_op(env, o)
         ctx.label("op=" + name)
         for v in env.variants:
